@@ -2,7 +2,7 @@
 """tools/run_seeded_par.py [seed-id ...] [--jobs N] [--tier quick|thorough]
 Development aid (NOT the recorded protocol, which is tools/run_seeded.py on /repo itself): applies each seeded change to one
 of N throw-away worktrees of /repo HEAD under /tmp, points the property's check at it through VERIF_REPO (evidence and
-replays redirected to a scratch directory) and prints the violation signatures. Nothing is written to seeded/*/meta.json."""
+replays redirected to a scratch directory) and prints the violation signatures. Nothing is written to seeded/*/meta.json unless --record is given."""
 import json, os, re, shutil, subprocess, sys, tempfile
 from concurrent.futures import ThreadPoolExecutor
 import queue
@@ -33,6 +33,13 @@ def one(sid):
         out = subprocess.run([os.path.join(ROOT, "check"), prop, "--tier", tier, "--jobs", str(max(2, 16 // jobs))], capture_output=True, text=True, cwd=ROOT, env=env)
         sigs = sorted(set(re.findall(r"signature=(\S+)", out.stdout)))
         tail = "" if out.returncode in (0, 1) else " :: " + (out.stdout + out.stderr).strip().split("\n")[-1][:200]
+        if "--record" in argv:      # fallback record (the protocol of record is tools/run_seeded.py on /repo itself)
+            mp = os.path.join(d, "meta.json")
+            meta = json.load(open(mp))
+            meta.setdefault("detection", {})[tier] = {prop: {"exit": out.returncode, "violation_signatures": sigs,
+                                                             "how": "scratch worktree of /repo HEAD + VERIF_REPO (tools/run_seeded_par.py)"}}
+            meta["detected"] = any(v["exit"] == 1 for t in meta["detection"].values() for v in t.values())
+            json.dump(meta, open(mp, "w"), indent=1)
         return "%s: check %s (%s) exit=%d %s%s" % (sid, prop, tier, out.returncode, "; ".join(sigs)[:260] or "-", tail)
     finally:
         subprocess.run(["git", "-C", wt, "checkout", "--", "."], check=True)
